@@ -16,7 +16,7 @@ let hopt = function Some l -> hs l | None -> "none"
 let syntax_class n =
   match int_of_n n with
   | 1 -> "noserver" | 2 -> "syntax" | 3 -> "value" | 4 -> "incvalue" | 5 -> "eof" | 6 -> "incread" | 7 -> "incopen"
-  | 9 -> "depth" | 99 -> "FUEL" | k -> "class" ^ string_of_int k
+  | 9 -> "depth" | 10 -> "trailing" | 11 -> "unmatched" | 99 -> "FUEL" | k -> "class" ^ string_of_int k
 let validation_class n =
   match int_of_n n with
   | 20 -> "port" | 21 -> "threads" | 22 -> "timeout" | 23 -> "nothreads" | 24 -> "blopen" | 25 -> "blread" | 26 -> "blip"
